@@ -132,6 +132,12 @@ def inputs(ctx):
         if rng.random() < 0.2 and fl >= 3:
             fp = fp[:2] + "5" + "0" * (fl - 3)       # ties
         ins.append({"id": "pt%d" % k, "k": "print", "text": "%d%s%s" % (ip, "." if fp else "", fp), "u": rng.choice(UNITS)})
+    # values that are not whole numbers but print as multiples of ten / hundred (trailing zeros belong
+    # to the number), and values that print as nothing but zeros
+    for k, text in enumerate(["30.000000000000004", "69.99999999999999", "10.0047", "20.003", "99.996", "100.0049", "0.003",
+                              "0.004999", "10.5", "100.50", "1000.004", "50.0", "200", "0.10", "10.10", "109.995"]):
+        for u in UNITS:
+            ins.append({"id": "pz%d%s" % (k, u), "k": "print", "text": text, "u": u})
     pool = [("size", v, u) for v in ["0", "1", "2", "5/2", "7"] for u in UNITS]
     for k in range(200 if ctx.quick else 3000):
         ins.append({"id": "pd%d" % k, "k": "padding", "sizes": [rng.choice(pool) for _ in range(rng.randrange(1, 5))]})
